@@ -26,7 +26,9 @@ def rates_py(c, G, idx, status):
     out = []
     for u in nodes:
         s = status[idx[u]]
-        if s == "I":
+        if fam == "sei":
+            out.append(tau * sum(1 for v in G.neighbors(u) if status[idx[v]] == "R") if s == "S" else (gamma if s == "I" else F(0)))
+        elif s == "I":
             out.append(gamma)
         elif s == "S":
             near = set(G.neighbors(u))
